@@ -80,7 +80,7 @@ func c01Run(t *testing.T, tr *kit.Trace, cfg c01Cfg, ops []c01Op) {
 		}
 		// the oracle: a stock HTTP/3 server with the same handler
 		osock := w.net.Listen("10.0.0.2", 443)
-		otls := serverTLSConfig()
+		otls := e2eServerTLS()
 		oracle := &http3.Server{Handler: masq, TLSConfig: http3.ConfigureTLSConfig(tlsFromServer(otls)), EnableDatagrams: true}
 		go oracle.Serve(osock)
 
